@@ -59,7 +59,9 @@ type FuncCtx struct {
 	callCount        map[string]int
 	assertSeen       map[string]bool
 	curTags          []string
-	entryArgs        []Val // entry values of the parameters (replay)
+	entryArgs        []Val                     // entry values of the parameters (replay)
+	iterStable0      *Term                     // function literal under an iterator protocol: the iterator's <stable> at entry
+	iterPre          map[*ssa.CallCommon]*Term // iterator calls: <stable> before the call
 }
 
 type ModLoc struct {
@@ -221,6 +223,9 @@ func VerifyFunction(p *Program, fn *ssa.Function, c *Contract) (fc *FuncCtx, err
 	fr.entrySt = fc.entry
 	fc.bindParams(fr, fn, args, fvs, st)
 	fc.entryVars = fr.params
+	if c.IteratedBy != "" {
+		fc.assumeIterProtocol(fr, st, fn, c, args)
+	}
 	// requires (a closure verified on its own may constrain its captured variables by name;
 	// at entry no other local exists)
 	env := fc.envFor(fr, st, nil, false)
@@ -519,8 +524,76 @@ func (fc *FuncCtx) checkPost(fr *Frame, ret *State, vals []Val) {
 		fc.addSplit(fr, ret, "post", en.Text, t, fr.fn.Pos(), "postcondition")
 		fc.curTags = nil
 	}
+	if c.IteratedBy != "" {
+		// the function literal leaves what the iterator read before its loop unchanged
+		_, ip, penv := fc.iterProtoEnv(c, fr.params["$it"], ret)
+		fc.addObl(fr, ret, "iter-stable", ip.Text, Eq(penv.elab(ip.Stable).T, fc.iterStable0), fr.fn.Pos(), "the function literal does not change what its iterator reads once before the loop")
+		// ... and keeps the iterator's own preconditions true for the next activation (they were assumed at entry)
+		for _, rq := range fc.p.contracts[c.Pkg+"::"+c.IteratedBy].Requires {
+			t, err := penv.ElabBool(rq.Expr)
+			if err != nil {
+				panic(elabErr{fmt.Sprintf("%s:%d: requires of %s: %v", c.File, c.Line, c.IteratedBy, err)})
+			}
+			fc.addSplit(fr, ret, "iter-pre", c.IteratedBy+":"+rq.Text, t, fr.fn.Pos(), "the function literal keeps the precondition of its iterator true for the next activation")
+		}
+	}
 	// frame
 	fc.checkFrame(fr, ret, "frame", fr.fn.Pos(), nil)
+}
+
+// iterProtoEnv: the iterator named by the `iterated_by` clause of the literal's contract c, its protocol, and an
+// environment over state st in which the iterator's receiver is recv.
+func (fc *FuncCtx) iterProtoEnv(c *Contract, recv SVal, st *State) (*ssa.Function, *IterProto, *Env) {
+	key := c.Pkg + "::" + c.IteratedBy
+	ic, itf := fc.p.contracts[key], fc.p.funcs[key]
+	if ic == nil || itf == nil || ic.Iterates == nil || len(itf.Params) == 0 {
+		panic(elabErr{fmt.Sprintf("%s:%d: iterated_by %s: no such function with an `iterates` clause", c.File, c.Line, c.IteratedBy)})
+	}
+	if !ic.ModifiesSet || len(ic.Modifies) != 0 {
+		panic(elabErr{fmt.Sprintf("%s:%d: iterated_by %s: the iterator must be declared `modifies nothing`", c.File, c.Line, c.IteratedBy)})
+	}
+	env := &Env{p: fc.p, pkg: itf.Pkg.Pkg, vars: map[string]SVal{itf.Params[0].Name(): recv}, cur: st}
+	return itf, ic.Iterates, env
+}
+
+// assumeIterProtocol: a function literal verified on its own under `iterated_by F`: this is activation $k of the loop of F
+// (receiver $it): F's preconditions hold, 0 <= $k < count, and the parameters are the arguments F reads for index $k in the
+// current heap.
+func (fc *FuncCtx) assumeIterProtocol(fr *Frame, st *State, fn *ssa.Function, c *Contract, args []Val) {
+	key := c.Pkg + "::" + c.IteratedBy
+	itf := fc.p.funcs[key]
+	if itf == nil || len(itf.Params) == 0 {
+		panic(elabErr{fmt.Sprintf("%s:%d: iterated_by %s: no such function", c.File, c.Line, c.IteratedBy)})
+	}
+	rv := fc.freshVal("iter.recv", itf.Params[0].Type(), st)
+	k := Fresh("iter.k", SInt)
+	fr.params["$it"] = SVal{T: rv.T, Typ: itf.Params[0].Type()}
+	fr.params["$k"] = SVal{T: k, Typ: tInt}
+	_, ip, penv := fc.iterProtoEnv(c, fr.params["$it"], st)
+	penv.vars["$k"] = fr.params["$k"]
+	for _, rq := range fc.p.contracts[key].Requires {
+		t, err := penv.ElabBool(rq.Expr)
+		if err != nil {
+			panic(elabErr{fmt.Sprintf("%s:%d: requires of %s: %v", c.File, c.Line, c.IteratedBy, err)})
+		}
+		st.assume(t)
+	}
+	st.assume(And(Le(IntLit(0), k), Lt(k, penv.elab(ip.Count).T)))
+	if len(ip.Args) != len(fn.Params) {
+		panic(elabErr{fmt.Sprintf("%s:%d: iterated_by %s: the iterator passes %d arguments, the literal takes %d", c.File, c.Line, c.IteratedBy, len(ip.Args), len(fn.Params))})
+	}
+	for i, a := range ip.Args {
+		if args[i].T == nil {
+			continue
+		}
+		v := penv.elab(a)
+		if v.T.Sort != args[i].T.Sort {
+			panic(elabErr{fmt.Sprintf("%s:%d: iterated_by %s: argument %d has sort %s, the parameter has sort %s", c.File, c.Line, c.IteratedBy, i, v.T.Sort.Name, args[i].T.Sort.Name)})
+		}
+		st.assume(Eq(args[i].T, v.T))
+	}
+	fc.iterStable0 = penv.elab(ip.Stable).T
+	fc.note("function literal verified as one activation of the loop of " + c.IteratedBy + " (protocol: iterates " + ip.Text + ")")
 }
 
 // frameFormula: every old location of heap h outside the frame is unchanged between a and b
@@ -714,6 +787,15 @@ func elabModLoc(p *Program, m string, env *Env) (locs []ModLoc, err error) {
 		}
 		v := env.elab(e)
 		return []ModLoc{{Heap: ghostFieldHeap(p, strings.TrimSpace(body[:i]), isArr), At: v.T}}, nil
+	case strings.HasPrefix(m, "deref(") && strings.HasSuffix(m, ")"):
+		// deref(p): the cell behind a pointer to a scalar
+		e, perr := ParseSpec(m[6 : len(m)-1])
+		if perr != nil {
+			return nil, perr
+		}
+		v := env.elab(e)
+		h, _ := derefHeap(p, v)
+		return []ModLoc{{Heap: h, At: v.T}}, nil
 	case strings.HasPrefix(m, "captured(") && strings.HasSuffix(m, ")"):
 		return []ModLoc{{Heap: "FV:" + m[9:len(m)-1]}}, nil
 	case strings.HasSuffix(m, "[*]") || strings.HasSuffix(m, "[+]"):
